@@ -87,6 +87,7 @@ size_t shim_eav_size (void);
 const char *shim_backend (void);
 int  shim_has_extra (void);
 int  shim_has_ndebug (void);
+int  shim_is_special_domain (const char *s, const char *e);
 void shim_init (void *e);
 void shim_free (void *e);
 int  shim_setup (void *e);
